@@ -369,3 +369,11 @@ pub(super) fn cancel_sequence(state: &mut SequenceState, kbd_out: &mut KbdOut) -
 pub(super) fn add_noerase(state: &mut SequenceState, noerase_count: u16) {
     state.noerase_count += noerase_count;
 }
+
+#[cfg(feature = "verif")]
+impl SequenceState {
+    /// Verification hook: read the private backspace-suppression counter.
+    pub(crate) fn verif_noerase_count(&self) -> u16 {
+        self.noerase_count
+    }
+}
